@@ -4,6 +4,7 @@ pub mod tm;
 pub mod langs;
 pub mod egx;
 pub mod hist;
+pub mod mixed;
 pub mod known;
 pub mod oracle;
 pub mod props;
